@@ -36,16 +36,16 @@ CLAIMS = {
          "n<=3..4, L<=2; table-indexed statistics use enumerated contents."),
  "C15": ("Mask/MaskOccurences/MaskUnique against the per-cell selection rule with unconstrained window arguments, all replacement modes and protection flags; frame condition on every other cell.",
          "n<=3, L<=2..3."),
- "C16": ("Phase fan-out explored over interleavings (bounded preemption) with race/deadlock detection and comparison with the one-thread result; framing relations of the per-sequence aligners on mutated ORF copies with symbolic bases; longest-ORF search through the interpreted regexp engine.",
-         "2 sequences, <=2 workers; ORF ATGAAA with one symbolic substitution and 0..1 symbolic flank bases; sequences <= 9 nt for the ORF search."),
- "C17": ("Only the parts that do not depend on the optimiser are encoded (see DESIGN.md); the likelihood-optimality statement is not applicable to this technique.",
-         "skeleton only"),
- "C18": ("Closed-form eigen systems (JC, K2P, F84) and the generic P(t) assembly are checked symbolically: L*R=I, R diag(val) L equals the textbook rate matrix, rows of R diag(e) L sum to 1 for symbolic e_k=exp(val_k t), detailed balance, analytic Pij equals the eigen form.",
-         "parameters at rational sample points; models that need gonum's eigen-solver are not applicable."),
+ "C16": ("Phase fan-out (real aligner, two short sequences, 2 workers) explored over interleavings within a delay bound, with race/deadlock detection and comparison with the sequential per-sequence computation; framing relations of the per-sequence aligners on mutated ORF copies with symbolic bases; longest-ORF search through the interpreted regexp engine on symbolic sequences.",
+         "delay bound 2 (3 thorough); ORF ATGGAA with one symbolic substitution and at most one symbolic flank base; sequences of 6..7 (8..9 thorough) symbolic bases for the ORF search."),
+ "C17": ("PARTIAL: only what does not depend on the likelihood optimiser is decided: JC69 start values and site selection against the published formula, the zero matrix for alignments without unambiguous difference, and symmetry / zero diagonal / range [0,20] of MLDist on pairs that do not reach the optimiser. The core statement (the reported distance maximises the likelihood) depends on Brent iteration and gonum's LAPACK eigen-solver, which cannot be encoded: that part is not applicable and is NOT claimed.",
+         "n<=3 rows, L<=2 columns, residues from {A,R,N,-,X,*,B}; one known finding (C17-mldist-minus-one)."),
+ "C18": ("PARTIAL: closed-form eigen systems (JC, K2P with sample-point and symbolic kappa, F84) and the generic P(t) assembly (stub model, positivity floor) are decided symbolically: L*R=I, R diag(val) L equals the textbook rate matrix, rows of R diag(e) L sum to 1 for symbolic t, detailed balance, P(0)=I, stationary limit, semigroup law, analytic Pij equals the eigen form; inputs of the 7 protein models. P(t) of F81, TN93, GTR and the protein models goes through gonum's LAPACK eigen-solver, which cannot be encoded: not applicable and NOT claimed; entries in [0,1] only for JC.",
+         "t symbolic in [1e-8,100] and t=0; parameters at rational sample points; comparisons within 1e-9."),
  "C19": ("Snapshot-call-snapshot for every listed query/copy operation with symbolic residues, and independence of copies under symbolic writes to the copy and to the original.",
          "n<=3, L<=4."),
- "C20": ("Dirichlet samplers and weight builders with the generator as nondeterministic stubs: normalisation, positivity and error reporting for every outcome.",
-         "n=3,4; incomplete-gamma numerics and gonum's quantile are not applicable."),
+ "C20": ("PARTIAL: Dirichlet, Dirichlet1, the gamma sampler and the weight builders are decided for every outcome of the random draws (the generator is a nondeterministic stub): sums to the requested total, components positive and finite, one weight per site summing to L, invalid parameters rejected; IncompleteGamma domain values. Discrete-gamma rate categories need gonum's gamma quantile and the incomplete-gamma series needs unbounded floating-point iteration: not applicable and NOT claimed.",
+         "n=3,4 (L=3,4); rejection loops cut after the number of draws stated per harness (maxrand); one known finding (C20-gamma-returns-zero)."),
 }
 
 # filled from the current state of the work: properties with a registered check
